@@ -439,4 +439,83 @@ mod verif_driver_compile {
         }
         println!("VERIF-CASES fn=compute_script_data_hash n={n}");
     }
+
+    // ---- C02 (value preservation): the mint field is the exact per-class sum of what is minted minus what is
+    // burned, over all mint and burn blocks; classes that cancel to zero disappear, nothing else is dropped.
+    // BOUND: 2 policies x 2 names, amounts from {1, 2, 40, 2^62}, every (mint, burn) pair of single-asset blocks and
+    // three two-asset combinations.
+    fn tok(policy: u8, name: &str, n: i128) -> tir::AssetExpr {
+        tir::AssetExpr { policy: tir::Expression::Bytes(vec![policy; 28]), asset_name: tir::Expression::Bytes(name.as_bytes().to_vec()), amount: num(n) }
+    }
+
+    fn mint_of(assets: Vec<tir::AssetExpr>) -> tir::Mint {
+        tir::Mint { amount: tir::Expression::Assets(assets), redeemer: tir::Expression::None }
+    }
+
+    #[test]
+    fn compile_mint_block_contract() {
+        use std::collections::BTreeMap;
+        let mut n = 0;
+        let amounts = [1i128, 2, 40, 1 << 62];
+        let classes = [(1u8, "A"), (1u8, "B"), (2u8, "A")];
+        let mut cases: Vec<(Vec<tir::AssetExpr>, Vec<tir::AssetExpr>)> = vec![];
+        for (pm, nm) in classes { for (pb, nb) in classes { for am in amounts { for ab in amounts {
+            cases.push((vec![tok(pm, nm, am)], vec![tok(pb, nb, ab)]));
+        } } } }
+        cases.push((vec![tok(1, "A", 5), tok(1, "B", 7)], vec![tok(1, "A", 3)]));
+        cases.push((vec![tok(1, "A", 5), tok(2, "A", 7)], vec![tok(1, "B", 3), tok(2, "A", 7)]));
+        cases.push((vec![tok(1, "A", 5)], vec![]));
+        cases.push((vec![], vec![tok(1, "A", 5)]));
+        for (mints, burns) in cases {
+            n += 1;
+            let mut tx = empty_tx();
+            if !mints.is_empty() { tx.mints = vec![mint_of(mints.clone())]; }
+            if !burns.is_empty() { tx.burns = vec![mint_of(burns.clone())]; }
+            let mut want: BTreeMap<(Vec<u8>, Vec<u8>), i128> = BTreeMap::new();
+            let key = |a: &tir::AssetExpr| (a.policy.as_bytes().unwrap().to_vec(), a.asset_name.as_bytes().unwrap().to_vec());
+            for a in &mints { *want.entry(key(a)).or_default() += a.amount.as_number().unwrap(); }
+            for a in &burns { *want.entry(key(a)).or_default() -= a.amount.as_number().unwrap(); }
+            want.retain(|_, v| *v != 0);
+            let input = format!("mint={:?} burn={:?}", mints.iter().map(|a| (key(a), a.amount.as_number().unwrap())).collect::<Vec<_>>(), burns.iter().map(|a| (key(a), a.amount.as_number().unwrap())).collect::<Vec<_>>());
+            match quiet(|| compile_mint_block(&tx)) {
+                Err(p) => witness("c02_cardano/compile_mint_block#reachable-panic", "compile_mint_block", input, format!("panic:{p}"), "Ok or Err"),
+                Ok(Err(_)) => {}
+                Ok(Ok(got)) => {
+                    let mut have: BTreeMap<(Vec<u8>, Vec<u8>), i128> = BTreeMap::new();
+                    for (p, assets) in got.iter().flat_map(|m| m.iter()) {
+                        for (name, q) in assets.iter() { have.insert((p.to_vec(), name.to_vec()), i64::from(*q) as i128); }
+                    }
+                    if have != want {
+                        witness("c02_cardano/compile_mint_block#postcondition", "compile_mint_block", input, format!("{have:?}"), "mint field == per-class sum of mints minus burns (zero classes absent)");
+                    }
+                }
+            }
+        }
+        println!("VERIF-CASES fn=compile_mint_block n={n}");
+    }
+
+    // ---- C10 (reproducibility, no duplicates): reference / collateral / regular inputs are compiled in a
+    // deterministic order; compiling the same template repeatedly gives the same list.
+    // BOUND: 8 distinct references, 33 repetitions.
+    #[test]
+    fn compile_reference_inputs_deterministic() {
+        let mut n = 0;
+        let mut tx = empty_tx();
+        let refs: Vec<tx3_tir::model::core::UtxoRef> = (0..8u8).map(|i| tx3_tir::model::core::UtxoRef { txid: vec![i.wrapping_mul(37).wrapping_add(1); 32], index: (7 - i) as u32 }).collect();
+        tx.references = vec![tir::Expression::UtxoRefs(refs[..3].to_vec()), tir::Expression::UtxoRefs(refs[3..].to_vec())];
+        let first = quiet(|| compile_reference_inputs(&tx).map(|v| v.iter().map(|i| (i.transaction_id.to_vec(), i.index)).collect::<Vec<_>>()));
+        for _ in 0..33 {
+            n += 1;
+            let again = quiet(|| compile_reference_inputs(&tx).map(|v| v.iter().map(|i| (i.transaction_id.to_vec(), i.index)).collect::<Vec<_>>()));
+            match (&first, &again) {
+                (Ok(Ok(a)), Ok(Ok(b))) => {
+                    if a != b { witness("c10_cardano/compile_reference_inputs#reproducible", "compile_reference_inputs", "8 references".into(), "order differs between two compilations".into(), "same template => same reference input list"); break; }
+                    let mut sorted = b.clone(); sorted.sort(); sorted.dedup();
+                    if b.len() != 8 || sorted.len() != 8 { witness("c10_cardano/compile_reference_inputs#postcondition", "compile_reference_inputs", "8 references".into(), format!("{} entries", b.len()), "every reference exactly once"); break; }
+                }
+                _ => { witness("c10_cardano/compile_reference_inputs#postcondition", "compile_reference_inputs", "8 references".into(), "error / panic".into(), "Ok"); break; }
+            }
+        }
+        println!("VERIF-CASES fn=compile_reference_inputs n={n}");
+    }
 }
